@@ -579,4 +579,45 @@ theorem runOKG_of_cleanRun (ignore : Bool) (ops : List Op) (hops : ∀ op ∈ op
     · simp only [Ref.opEventsG, hop.unbatched, and_self, if_true]
       exact ih (fun o ho => hops o (List.mem_cons_of_mem _ ho)) _ hc.2
 
+/-! ## the Boolean side conditions (driver, non-vacuity examples) are sound -/
+
+theorem rectB_sound (nc : Nat) (vs : List (List Val)) (h : Ref.rectB nc vs = true) :
+    Rebatch.WF nc (vs.map Ref.asBatch) := by
+  intro b hb
+  simp only [List.mem_map] at hb
+  obtain ⟨cols, hc, rfl⟩ := hb
+  have h1 := (List.all_eq_true.mp h) cols hc
+  simp only [Bool.and_eq_true, beq_iff_eq, List.all_eq_true] at h1
+  obtain ⟨hlen, hall⟩ := h1
+  refine ⟨by simp [Ref.asBatch, hlen], ?_⟩
+  intro c hc'
+  simp only [Ref.asBatch, List.mem_map] at hc'
+  obtain ⟨v, hv, rfl⟩ := hc'
+  obtain ⟨hk, hr⟩ := hall v hv
+  constructor
+  · cases v <;> simp_all [Ref.asCol]
+  · have hn : Rebatch.nrows (cols.map Ref.asCol) = (Ref.asCol (cols.headD .none)).rows.length := by
+      cases cols with
+      | nil => simp at hv
+      | cons a as => simp [Rebatch.nrows]
+    show _ = Rebatch.nrows (cols.map Ref.asCol)
+    rw [hn]; exact hr
+
+theorem cleanLB_sound {α : Type} (ignore : Bool) (evs : List (Ev α))
+    (h : Ref.cleanLB ignore evs = true) : CleanL ignore evs := by
+  intro e he
+  have := (List.all_eq_true.mp h) _ he
+  simpa using this
+
+theorem batchedOKB_sound (ignore : Bool) (op : Op) (s : Nat) (src : List (Ev Val))
+    (hk : op.kind = .select ∨ op.kind = .apply) (hs : SelfAlone op)
+    (h : Ref.batchedOKB ignore op s src = true) : BatchedOK ignore op s src := by
+  simp only [Ref.batchedOKB, Bool.and_eq_true, decide_eq_true_eq, Bool.or_eq_true, beq_iff_eq] at h
+  obtain ⟨⟨⟨⟨⟨_, hb⟩, hn⟩, hcl⟩, hin⟩, hout⟩ := h
+  refine ⟨hk, hs, hb, hn, cleanLB_sound ignore _ hcl, ?_, rectB_sound _ _ hout⟩
+  intro hf
+  rcases hin with hin | hin
+  · exact absurd hin hf
+  · exact ⟨hin.1, rectB_sound _ _ hin.2⟩
+
 end MlModel.Pipe
